@@ -300,6 +300,24 @@ fn job_text(job: &Value) -> Result<Value, String> {
             r["built"] = tree_json(&tree);
             r
         }
+        "canon" => {
+            let t = text.clone();
+            res_json(catch_unwind(move || -> Result<Value, String> {
+                let (c, r) = biodivine_hctl_model_checker::evaluation::verif_hooks::get_canonical_and_renaming(t.clone());
+                let c1 = biodivine_hctl_model_checker::evaluation::verif_hooks::get_canonical(t);
+                let mut ren: Vec<(String, String)> = r.into_iter().collect(); ren.sort();
+                Ok(json!({"canon": c, "canon_only": c1, "renaming": ren}))
+            }), |v| v.clone())
+        }
+        "dups_trees" => {
+            let trees: Vec<HctlTreeNode> = job["trees"].as_array().unwrap().iter().map(tree_from_json).collect();
+            res_json(catch_unwind(AssertUnwindSafe(|| -> Result<Value, String> {
+                let d = biodivine_hctl_model_checker::evaluation::mark_duplicates::mark_duplicates_canonized_multiple(&trees);
+                let mut items: Vec<Value> = d.iter().map(|((f, dm), n)| json!({"f": f, "d": dm, "n": n})).collect();
+                items.sort_by_key(|x| x.to_string());
+                Ok(json!({"dups": items, "trees": trees.iter().map(tree_json).collect::<Vec<_>>()}))
+            })), |v| v.clone())
+        }
         "duplicates" => {
             // duplicates of a list of (extended) formulas after real preprocessing
             let bn = load_bn(job)?;
